@@ -17,6 +17,7 @@ import (
 func init() {
 	verifrt.Register("H_C13_DecoderStep", H_C13_DecoderStep)
 	verifrt.Register("H_C13_EncoderStep", H_C13_EncoderStep)
+	verifrt.Register("H_C13_EncoderShortSource", H_C13_EncoderShortSource)
 }
 
 // vStream is the request body as the part decoder sees it: it obeys the
@@ -186,5 +187,63 @@ func H_C13_EncoderStep(v *verifrt.T) {
 	} else {
 		v.Assert(err == nil, "C13.O1 no error in the middle of a part")
 		v.Assert(enc.binPart == real.parts[cur] && enc.partProgress == progress+int64(n), "C13.O1 progress advances by the bytes returned")
+	}
+}
+
+// vShortHandle is a source file that got shorter after it was scanned: the
+// read that hits its new end returns fewer bytes than asked, with io.EOF.
+type vShortHandle struct {
+	v      *verifrt.T
+	closed bool
+}
+
+func (h *vShortHandle) Read(p []byte) (int, error) {
+	n := h.v.Int("file-n")
+	h.v.Assume(n >= 0)
+	h.v.Assume(n < len(p))
+	for j := 0; j < n; j++ {
+		p[j] = verifrt.ContentByte("file", int64(j))
+	}
+	return n, io.EOF
+}
+func (h *vShortHandle) Seek(off int64, whence int) (int64, error) { return off, nil }
+func (h *vShortHandle) Close() error                              { h.closed = true; return nil }
+
+// O1b: framing when the source file is shorter than announced (it was
+// truncated after the scan): the header promises end-beg bytes for the part, so
+// the body must carry exactly that many before the next part begins — whatever
+// their content (the receiver's hash check then fails this one file) — or the
+// request must be aborted with an error; a part that silently contributes
+// fewer bytes shifts every following part onto its neighbour's bytes.
+func H_C13_EncoderShortSource(v *verifrt.T) {
+	l := 1 + v.Choose("buflen", v.Param("B", 3))
+	pb, pe := v.Int64("part-beg"), v.Int64("part-end")
+	v.Assume(0 <= pb)
+	v.Assume(pb < pe)
+	v.Assume(pe < 1<<40)
+	real := NewBin(1<<50, func(sts.File) (sts.Readable, error) { return &vHandle{v: v}, nil }, nil).(*Bin)
+	real.parts = append(real.parts,
+		&part{Binnable: &vBinnable{name: "a", offset: 0, length: pe}, beg: pb, end: pe},
+		&part{Binnable: &vBinnable{name: "b", offset: 0, length: 4}, beg: 0, end: 4})
+	enc := NewEncoder(real)
+	progress := v.Int64("progress")
+	v.Assume(0 <= progress)
+	v.Assume(progress < pe-pb)
+	enc.binPart = real.parts[0]
+	enc.partIndex = 1
+	enc.partProgress = progress
+	enc.handle = &vShortHandle{v: v}
+	buf := make([]byte, l)
+	n, err := enc.Read(buf)
+	left := pe - pb - progress
+	if err != nil && err != io.EOF {
+		v.Reach("aborted")
+		return
+	}
+	v.Reach("read")
+	v.Assert(int64(n) <= left, "C13.O1 never more than the part has left")
+	if enc.binPart != real.parts[0] {
+		v.Reach("moved-on")
+		v.Assert(int64(n) == left, "C13 a part contributes exactly end-beg bytes to the body before the next part begins, also when its source file got shorter")
 	}
 }
